@@ -7,7 +7,7 @@ P = {
  "C01": dict(tech="differential round-trip monitor (generator -> repo writer -> repo reader and -> independent decoder written from the format specifications)",
              text="Runtime monitoring: generated tile sets (sparse/dense, zoom gaps, 256-grid and level borders, duplicates, payload sizes around 1000 bytes, > 16384 tiles) are written with the repo's writers to all five formats and every accepted (format, compression) pair; the result is read back through the repo's reader (lookups over a superset of coordinates + streams of the advertised level boxes) and through an independent decoder; both must give exactly the source mapping and declaration. Held on the generated executions only.",
              note="Trusted: the independent decoders (harness/src/codec), brotli/flate2/rusqlite crates. MBTiles only with its four legal pairs, PMTiles with its five tile types.", ref="4/C01"),
- "C02": dict(tech="differential monitor stream-vs-lookups over a zoo of sources (5 readers x own/foreign encodings, converting reader, every pipeline operation and nestings) x exhaustive small boxes + sampled border boxes, on single- and multi-threaded runtimes",
+ "C02": dict(tech="differential monitor stream-vs-lookups over a zoo of sources (5 readers x own/foreign encodings, converting reader, every pipeline operation and nestings) x exhaustive small boxes + sampled border boxes, on single- and multi-threaded runtimes; TSan flavour and >64 MiB blocks in thorough",
              text="Runtime monitoring: for every source kind and box (every box of zoom 0..3, both empty encodings, boxes across block / coverage borders, outside, absent levels) the collected stream is compared with single-tile lookups: same set, once each, byte-identical, nothing outside, no panic. Runs alternate between current-thread and 8-worker runtimes plus 8 concurrent streams.",
              note="Lookups are the reference. Boxes capped at 70 000 coordinates; for boxes > 4096 coordinates the lookup side is sampled around stored tiles.", ref="4/C02"),
  "C13": dict(tech="history monitor at the client boundary (solo results vs concurrent results, offset-encoding file content, in-flight counter); TSan / Miri flavours in thorough",
@@ -37,13 +37,13 @@ P.update({
  "C04": dict(tech="differential conversion monitor: 3 source compressions x {keep,none,gzip,brotli} x force x 5 target formats on genuinely compressed payload classes; output decoded with independent gzip/brotli; metadata through reader and independent decoder",
              text="Runtime monitoring: every (source compression, target, force, format) cell is converted with convert_tiles_container (random flip/swap, in-memory or file sources, single- and multi-threaded runtime); every output tile decoded with the compression the output declares must equal the decoded source tile (lookups and streams), declared compression must be the requested one, metadata must survive and be decodable with the codec the format prescribes; plus the compress/decompress/recompress algebra of the utils against independent codecs.",
              note="MBTiles / PMTiles only with the pairs they can hold. Metadata compared as JSON on name/attribution/vector_layers/tilejson.", ref="4/C04"),
- "C05": dict(tech="black-box HTTP monitor: real `versatiles serve` binary, raw-socket HTTP/1.1 client, containers with known tile maps, independent media-type table and codecs",
+ "C05": dict(tech="black-box HTTP monitor: real `versatiles serve` binary, raw-socket HTTP/1.1 client, containers with known tile maps, independent media-type table and codecs; thorough repeats it against the release build of the binary",
              text="Runtime monitoring: thousands of raw exchanges per run against servers in best and --fast mode serving versatiles (3 stored compressions, 6 tile formats), mbtiles, pmtiles, tar and directory sources: stored coordinates, neighbours, out-of-range x/y, z 32..255, unparsable and loosely written parts, Accept-Encoding subsets in random order/case/q/spacing. Oracle: complete response; 200 iff stored else 404 (400 if unparsable); decoded body = decoded stored tile; Content-Type; Content-Encoding absent or listed by the client.",
              note="z in 32..255 may be 400 or 404; lenient forms only need a complete response and, on 200, the right tile.", ref="4/C05"),
- "C06": dict(tech="model-based monitor on three levels: TilesConvertReader (lookups / streams / coverage), `versatiles convert` CLI read back by independent decoders, `versatiles serve --flip-y --swap-xy` over HTTP; independent Mercator model with tolerance band",
+ "C06": dict(tech="model-based monitor on three levels: TilesConvertReader (lookups / streams / coverage), `versatiles convert` CLI read back by independent decoders, `versatiles serve --flip-y --swap-xy` over HTTP; independent Mercator model with tolerance band; thorough repeats it against the release build of the binary",
              text="Runtime monitoring: for generated tile sets with unique payloads and random options (4 flag combinations, zoom limits, geographic boxes incl. tile-aligned / degenerate / world / Mercator-limit, border widths incl. huge) the output must contain a tile at c iff c is in the selection and the source has T^-1(c) (flip first, then swap) with that payload. Checked on the library reader, on the CLI into all five formats and on the server (incl. coordinates beyond the level, which must give complete 404s).",
              note="Selection in output coordinates; tolerance band 2e-6 tile (1e-3 at zoom>=28); tile-aligned boxes exact at their level (zoom<30).", ref="4/C06"),
- "C07": dict(tech="black-box HTTP monitor with canary files: real binary with -s <folder|tar> (with/without prefix), raw request targets from a segment alphabet, canaries outside the root (plain and only-precompressed)",
+ "C07": dict(tech="black-box HTTP monitor with canary files: real binary with -s <folder|tar> (with/without prefix), raw request targets from a segment alphabet, canaries outside the root (plain, only-precompressed, behind a symlinked directory); thorough repeats it against the release build of the binary",
              text="Runtime monitoring: request targets built from {file, dir, '.', '..', empty, %2e%2e, %2E%2e, ..%2f, %2f, ..;, canary names, absolute-path components, long name} up to length 5, plus //abs and ///abs forms, are sent raw; no response (raw or decoded) may contain a canary token, a 200 body must be the content of a file inside the root, lexically escaping and absolute targets must not be answered 200, every response must be complete.",
              note="Canaries cover the scratch tree around the root; symlinks are out of scope.", ref="4/C07"),
  "C08": dict(tech="sequential first-source model over 2..4 sources (memory / real files, mixed compression, filters, sources that go Pending on open / read); lookups, streams, declared compression, coverage = union",
@@ -58,7 +58,7 @@ P.update({
  "C11": dict(tech="canonical-form model: decode/re-encode round trip of generated tiles; join model for vectortiles_update_properties with a generated CSV (merge/replace x remove_non_matching x include_id)",
              text="Runtime monitoring: (a) VectorTile::from_blob -> to_blob on tiles from the independent encoder (table duplicates/unused entries, int64/sint64/uint64 extremes, -0.0, Unicode, UNKNOWN geometry, ids to 2^64-1) must preserve the canonical content; (b) update_properties must leave other layers untouched and keep id, geometry type, geometry bytes and order of retained features, with property maps equal to the join model (lookups and streams).",
              note="CSV cell typing follows the data-file reader (bool / double / int / string).", ref="4/C11"),
- "C12": dict(level="fault_enumeration", tech="fault enumeration on the recorded write trace: TraceWriter (DataWriterTrait) -> every operation prefix + byte cuts -> real reader must reject or return every tile intact",
+ "C12": dict(level="fault_enumeration", tech="fault enumeration on the recorded write trace: TraceWriter (DataWriterTrait) -> every operation prefix + byte cuts -> real reader must reject or return every tile intact (and declare their compression); plus syscall level: strace log of the real file writer / `versatiles convert` (fresh path and over an existing container) replayed prefix by prefix",
              text="Fault enumeration: for each recorded trace (both formats, all compressions, one PMTiles/versatiles trace with > 16384 tiles) every prefix of the operation sequence and byte-granular cuts of short and final operations are materialised as file images (unwritten regions = zeros) and opened with the real reader; Ok requires every source tile intact. Exhaustive per trace in the operation-prefix dimension (thinned only for the two huge traces).",
              note="Crash model: completed operations + prefix of the interrupted one, in program order.", ref="4/C12"),
 })
